@@ -72,6 +72,8 @@ def clean_payload(rng, kind):
         out = out.replace('"', "'")          # stays one title
     if kind in ('autolink', 'email'):
         out = out.replace('<', '').replace('>', '') or 'x'       # with the slot's own brackets these would spell a complete tag
+    # atoms must not join into a complete tag ('<' + 'word' + '>'): that would be raw HTML, which is passed through by design
+    out = re.sub(r'<(?=[A-Za-z/!?])', '< ', out)
     return out
 
 
@@ -108,6 +110,14 @@ def cause_of(data, err, off, src, kind, strict=False):
     if not strict and (RAW_TAG.search(src) or b'{=' in src or kind in ('raw-filter', 'html-inline', 'html-block', 'html-comment')):
         # raw HTML / XML typed by the author is copied into the output by design; the parser trips on it or on the tag that no longer matches
         return 'raw-markup-passthrough'
+    # inside the alt/title attribute of an <img> that the payload itself spelled ('![' ... '](' around a slot): the recorded image-alt / image-title cause
+    im = data.rfind(b'<img ', 0, off)
+    if im >= 0 and b'/>' not in data[im:off] and kind not in ('image-alt', 'image-title', 'figure'):
+        seg = data[im:off]
+        if b' title="' in seg:
+            kind = 'image-title'
+        elif b' alt="' in seg:
+            kind = 'image-alt'
     # inside a URL-carrying attribute value (the writers copy link and image destinations raw)
     q = data.rfind(b'"', 0, off)
     m = re.search(rb'(xlink:href|href|src)=$', data[max(0, q - 12):q]) if q > 0 else None
